@@ -28,8 +28,11 @@ import (
 // The harness owns the schedule: pocketTypes.VerifYield (build tag verif) is called by the code under test
 // between relay validation and proof storage ("relay.validated") and inside SetProof between reading and
 // writing back the evidence ("setproof.read"). Every managed goroutine parks there; a rapid-drawn sequence
-// of goroutine ids decides who runs next, so exactly one goroutine runs at a time and a run is a pure
-// function of the drawn schedule.
+// of steps decides who runs next, so a run is a function of the drawn schedule (since the relay path is
+// serialized per servicer, a goroutine that was blocked on that lock continues as soon as the holder releases it).
+// Besides relay goroutines a schedule can contain the claim sender (sealer) and the production events that move
+// evidence between the store's LRU and its database (flush, evidence-iterator pass, relays of another session
+// with a small LRU).
 
 // ---------------------------------------------------------------------------------------------
 // deterministic scheduler
@@ -123,7 +126,7 @@ func goroutineStatus(gid uint64) string {
 }
 
 // waitFor blocks until goroutine id is parked or done again. Should the code under test serialize the relay
-// path with a lock (it does not on the pinned tree), a resumed goroutine can block on a lock held by a parked
+// path with a lock (it does since 06530ac), a resumed goroutine can block on a lock held by a parked
 // one: that is recognised from its runtime status (twice in a row) and reported as blocked; the goroutine then
 // continues whenever the lock is released.
 func (s *c34Sched) waitFor(id int) bool {
